@@ -485,7 +485,10 @@ def check_mapping(reg, label, viol, expect_keys=None):
             pb.append("`key in registry` is False")
         if pb:
             viol.append(dict(name="item_%s" % label, what="%s[%r]: %s" % (label, k, "; ".join(pb)), case=dict(registry=label, key=k)))
-    for absent in ("no-such-plasmid", "", "sub/zzz", "../x"):
+    some = sorted(set(keys))[:1]
+    wild = ["*", "?", "*.gb", "[a-z]*"] + [k_[:-1] + "?" for k_ in some if k_] + ["[%s]%s" % (k_[0], k_[1:]) for k_ in some if k_] + [k_ + "*" for k_ in some] \
+        + [k_ + "/" for k_ in some] + [k_.swapcase() for k_ in some if k_.swapcase() != k_]
+    for absent in ["no-such-plasmid", "", "sub/zzz", "../x"] + wild:     # (keys are names, never patterns)
         evals += 1
         if absent in set(keys):
             continue
@@ -564,22 +567,24 @@ def bounded(ctx):
                             # extensions spelled in another case: not among the registry's extensions (pyfilesystem2 matches
                             # patterns case-insensitively on some file systems, lookup by name does not)
                             "upper.GBK": gb_text("upper", p3), "Mixed.Gb": gb_text("Mixed", p1),
+                            # a stem with characters that mean something in a wildcard pattern
+                            "pK[038]-x.gb": gb_text("pK[038]-x", p2),
                             "sub/zzz.gb": gb_text("zzz", p3), "sub/deep/yyy.gb": gb_text("yyy", p3)})
         # (file stems need not be the identifiers written inside the files: `renamed.gb` holds the record `inner_id`)
         d2 = make_dir(ctx, {"alpha.gb": gb_text("alpha", p3, "CmR"), "delta.gb": gb_text("inner_id", p2, "SpecR")})
         dirs += [d1, d2]
         r1 = base.FilesystemRegistry(d1, Entry)
         r2 = base.FilesystemRegistry(d2, Entry)
-        evals += check_mapping(r1, "directory(alpha.gb, beta.gbk, notes.txt, gamma.genbank, noext, sub/zzz.gb)", viol, expect_keys={"alpha", "beta", "omega.v2", "theta"})
+        evals += check_mapping(r1, "directory(alpha.gb, beta.gbk, notes.txt, gamma.genbank, noext, sub/zzz.gb)", viol, expect_keys={"alpha", "beta", "omega.v2", "theta", "pK[038]-x"})
         evals += check_mapping(r2, "directory(alpha.gb, delta.gb)", viol, expect_keys={"alpha", "delta"})
         distinct.update({("dir1", "alpha"), ("dir1", "beta"), ("dir2", "alpha"), ("dir2", "delta")})
         r3 = base.FilesystemRegistry(d1, Entry, extensions=("genbank", "gb"))
-        evals += check_mapping(r3, "directory(extensions=genbank,gb)", viol, expect_keys={"alpha", "beta", "gamma", "omega.v2", "theta"})
+        evals += check_mapping(r3, "directory(extensions=genbank,gb)", viol, expect_keys={"alpha", "beta", "gamma", "omega.v2", "theta", "pK[038]-x"})
         for order, first in (((r1, r2), p1), ((r2, r1), p3)):
             comb = base.CombinedRegistry()
             for r in order:
                 comb << r
-            evals += check_mapping(comb, "combined directories", viol, expect_keys={"alpha", "beta", "delta", "omega.v2", "theta"})
+            evals += check_mapping(comb, "combined directories", viol, expect_keys={"alpha", "beta", "delta", "omega.v2", "theta", "pK[038]-x"})
             got = str(comb["alpha"].entity.record.seq).upper()
             if got != first.upper():
                 viol.append(dict(name="first_wins", what="combined registry: for the shared id 'alpha' the item of the member added second was kept",
@@ -596,7 +601,7 @@ def bounded(ctx):
         inner << r1
         outer << inner
         outer << inner
-        evals += check_mapping(outer, "... inner << dir1; outer << inner (twice)", viol, expect_keys={"alpha", "beta", "delta", "omega.v2", "theta"})
+        evals += check_mapping(outer, "... inner << dir1; outer << inner (twice)", viol, expect_keys={"alpha", "beta", "delta", "omega.v2", "theta", "pK[038]-x"})
         if "alpha" in outer and str(outer["alpha"].entity.record.seq).upper() != p3.upper():
             viol.append(dict(name="first_wins_regrown", what="re-adding a grown member replaced the entry that was there first",
                              case=dict(scenario="nested combined registries")))
